@@ -47,6 +47,17 @@ def program(n, pacing='each', k=2, recon=True, eos='separate', stream_header=Tru
         p += [{'op': 'deinit'}, {'op': 'deinit_handle'}, {'op': 'session_end'}]
     return p
 
+def two_pass_program(n, recon=True, second=None):
+    """first pass (rc_firstpass_stats_out=1) and second pass (rc_twopass_stats_in = the first pass's statistics) as two sessions of one application"""
+    p1 = program(n, 'each', recon=False, stream_header=False)
+    for o in p1:
+        if o['op'] == 'set_param': o['set'] = {'rc_firstpass_stats_out': 1, 'recon_enabled': 0}
+    i = next(k for k, o in enumerate(p1) if o['op'] == 'deinit'); p1.insert(i, {'op': 'stream_info', 'save': 1})
+    p2 = program(n, 'each', recon=recon)
+    for o in p2:
+        if o['op'] == 'set_param': o['set'] = dict({'use_saved_stats': 1}, **(second or {}))
+    return p1 + p2
+
 def enc_case(cfg, content, g=None, sim=None, machine=None, oracles=None, mem=None, extra=None):
     g = dict(g or {})
     c = dict(content)
